@@ -121,4 +121,7 @@ def Op.srcLinked (s : State) : Op → Prop
   | .moveField r _ _ _ => ∀ h, getField s r = .ok h → Linked s h
   | _ => True
 
+/-- the object heap only grows: no existing field object changes its type or data -/
+def ObjsExt (s s' : State) : Prop := ∃ extra, s'.objs = s.objs ++ extra
+
 end Exetera.Catalogue
